@@ -198,6 +198,8 @@ func (cx *Ctx) oracleResolutions(rs []JobResult) (bool, string, string, string) 
 		r0, rj := job.Res[0], job.Res[j]
 		key := "resolution-dependent"
 		switch {
+		case rj.StackDepth != r0.StackDepth && rj.Adv == r0.Adv && rj.AdvSeed == r0.AdvSeed && rj.T0 == r0.T0 && rj.Rate == r0.Rate && rj.Entropy == r0.Entropy && len(rj.Overrides) == 0:
+			key = "stack-depth-dependent"
 		case rj.Adv == "overrides" && len(rj.Overrides) >= 1 && sameSite(rj.Overrides):
 			key = "order-dependent | " + rj.Overrides[0].Site
 		case (rj.Adv == r0.Adv || rj.Adv == "identity" || rj.Adv == "") && (rj.T0 != r0.T0 || rj.Rate != r0.Rate) && rj.Entropy == r0.Entropy:
@@ -230,6 +232,9 @@ func resText(r spec.Resolution) string {
 	s := "map order: " + r.Adv
 	if r.Adv == "" {
 		s = "map order: identity"
+	}
+	if r.StackDepth > 0 {
+		s = fmt.Sprintf("called from %d frames deep; ", r.StackDepth) + s
 	}
 	if r.Adv == "seeded" || r.Adv == "rotate" {
 		s += fmt.Sprintf("(seed %d; the same seed also drives sync.Pool reuse, fake addresses and the schedule of goroutines started by the call)", r.AdvSeed)
